@@ -39,6 +39,7 @@ def run(ctx):
     R.rule_R8_split_unfiltered(ctx, typer)
     R.rule_R9_component_dispatch(ctx, typer, "get")
     R.rule_R11_attr_value_truth(ctx, typer)
+    R.rule_R12_start_comparator(ctx, typer)
     from .common import rule_format_templates
     rule_format_templates(ctx, typer, [f for f in ctx.p.all_funcs if f.module.relpath == R.RES], "R10")
     ctx.floor("R9", 4)
